@@ -88,6 +88,7 @@ def main(argv=None):
     feats = collections.defaultdict(set)
     hashes = set()
     reach = {}
+    watched = {}
     wall_workers = []
     for s, (p, out, log) in enumerate(procs):
         try:
@@ -121,6 +122,10 @@ def main(argv=None):
         for k, (seen, tot) in d['reach'].items():
             r = reach.setdefault(k, [0, tot])
             r[0] = max(r[0], seen)
+        for k, w in d.get('watched', {}).items():
+            ww = watched.setdefault(k, {'want': set(), 'seen': set()})
+            ww['want'].update(w['want'])
+            ww['seen'].update(w['seen'])
         wall_workers.append(round(d['wall_s'], 2))
         hb = open(out + '.hashes', 'rb').read()
         for i in range(0, len(hb), 8):
@@ -159,6 +164,12 @@ def main(argv=None):
     for c, minimum in getattr(mod, 'DECIDING_COUNTERS', {}).items():
         if merged.counters.get(c, 0) < minimum:
             inconclusive.append('monitor counter %s=%d < %d' % (c, merged.counters.get(c, 0), minimum))
+    for k, w in sorted(watched.items()):
+        missing = sorted(w['want'] - w['seen'])
+        if not w['want']:
+            inconclusive.append('no watched statement found in %s' % k)
+        elif missing:
+            inconclusive.append('watched statements of %s never executed: lines %s' % (k, missing))
     if len(hashes) < 2:
         inconclusive.append('fewer than 2 distinct non-trivial cases')
 
@@ -176,6 +187,7 @@ def main(argv=None):
             'distinct_states': {k: len(v) for k, v in feats.items()},
             'states_observed': {k: sorted(v)[:60] for k, v in feats.items()},
             'anchor_reach': reach,
+            'watched_statements': {k: {'want': sorted(w['want']), 'executed': sorted(w['seen'])} for k, w in watched.items()},
             'known_findings_seen': seen_known,
             'notes': {k[:300]: n for k, n in list(merged.notes.items())[:40]},
             'shards': nshards, 'worker_wall_s': wall_workers,
